@@ -105,8 +105,7 @@ static void run_armed(int s, int kind) {
             if ((arg == 0 && i != 0) || (arg == 1 && i != ncur - 1)) continue;
             const m_evt_t *e = cur_evts[i]; int r = cur_evrec[i];
             int prio_high = e->type == M_SRC_TYPE_FD;
-            if (e->type == M_SRC_TYPE_PS && r >= 0) { /* priority of the subscription it came through */
-                for (int q = 0; q < NPAT; q++) for (int v = 0; v < 2; v++) if (e->userdata == &UPV[s][q][v] && MD[s].sub[q].present && MD[s].sub[q].prio == PR_HIGH) prio_high = 1; }
+            if (e->type == M_SRC_TYPE_PS && r >= 0) prio_high = EV[r].prio == PR_HIGH;      /* priority of the subscription it came through */
             int rc = m_mod_stash(MD[s].h, e);
             int legal = MD[s].st == S_RUNNING && !prio_high;
             if (ON(R_SH)) {
